@@ -13,8 +13,10 @@ the computed value. Proved for the model, for all values:
   (both constants are re-read from models.rs and cgt-format on every run; on the pinned tree the JSON one
   was banker's rounding — known finding D8, repaired);
 * `C17_half_even_differs_on_midpoint` — the witness that made them disagree: 12.5 pence.
-PDF: the Typst template rounds an f64 image of the decimal (known finding D8b); it is not covered by
-this check (the planned text-extraction hook was not built) — the claim is partial.
+PDF: the text runs of the compiled Typst document (hook `verif_text_runs`, behind
+`--cfg velikodniy_cgt_tool_verif`) are compared figure by figure with the exact value rounded to pence;
+the f64 rounding defect (D8b) was repaired (figures now reach the template as exact decimals), and the
+extractor group `pdf_round` checks that this stays so.
 -/
 namespace Cgt.C17
 open Cgt Cgt.Format
@@ -116,6 +118,16 @@ example : fmtCurrencyAmount "USD" 2 (12345/1000) = "12.35 USD" := by decide +ker
 example : fmtCurrencyAmount "JPY" 0 (201/2) = "101 JPY" := by decide +kernel
 example : fmtCurrencyAmount "KWD" 3 (-20125/10000) = "-2.013 KWD" := by decide +kernel
 example : fmtCurrencyAmount "GBP" 2 (1/8) = "£0.13" := by decide +kernel
+
+/-- the PDF rounds like the text report: figures reach the template as exact decimals (extracted:
+    no binary-float conversion on the way) and are rounded to the same number of digits, so the
+    PDF figure of a value is `fmtGbp` of it -/
+theorem C17_pdf_rounds_like_text :
+    pdfMoneyExactDecimal = true ∧ pdfMoneyDp = displayMoneyDp ∧ pdfQtyDp = 6 := by decide
+
+/-- a float image loses exactly the midpoints: the witness that made the PDF differ (1.005 → 100.49…
+    after scaling): its exact rounding is 1.01 -/
+example : fmtGbp (1005/1000) = "£1.01" := by decide +kernel
 
 /-- the two rounding sites the front-ends use agree (extracted constants) -/
 theorem C17_json_and_text_round_alike :
